@@ -11,6 +11,7 @@ import (
 
 	"gorumsim/simnet"
 	"gorumsim/simrt"
+	"gorumsim/simrt/dsync"
 )
 
 // Action is one enabled scheduler action.
@@ -467,7 +468,31 @@ func (r *replayChooser) Choose(w *World, acts []Action) (int, uint64) {
 
 // ---------------------------------------------------------------- faults
 
+// fireStallFaults (race-detector runs, targeted stalls): shortly after a goroutine has been held up
+// at the run's stall site, break a connection - the fault lands while that goroutine is still
+// asleep, so that what it does next meets whatever the failure handling has done in the meantime.
+// The stall counter is read without synchronisation on purpose (no happens-before edge).
+func (w *World) fireStallFaults() {
+	if w.stalls == nil || !w.Cfg.FaultOnStall || w.phase != "main" {
+		return
+	}
+	if n := dsync.StallsFired(w.stalls); n > w.stallsSeen {
+		w.stallsSeen = n
+		if w.stallFaultAt == 0 {
+			w.stallFaultAt = w.step + 1 + w.rng.IntN(4)
+		}
+	}
+	if w.stallFaultAt != 0 && w.step >= w.stallFaultAt && w.stallFaults < 6 {
+		w.stallFaultAt = 0
+		w.stallFaults++
+		si := w.rng.IntN(len(w.servers))
+		w.inject(&Fault{Kind: "reset", Srv: si, Mgr: -1})
+		w.faultsInc("reset-after-stall")
+	}
+}
+
 func (w *World) fireStepFaults() {
+	w.fireStallFaults()
 	for _, f := range w.Prog.Faults {
 		if f.fired || f.Site != "" {
 			continue
